@@ -5,6 +5,7 @@ package sqlittle
 // C18: Row.Scan over every (stored value, destination) pair.
 
 import (
+	"strconv"
 	"time"
 
 	sdb "github.com/alicebob/sqlittle/db"
@@ -240,6 +241,37 @@ func VH_C18_numeric_text() {
 		var v float64
 		err := row.Scan(&v)
 		sdb.VerifAssert((err == nil) == c.okF && (err != nil || v == c.f), "text -> float64")
+	}
+	sdb.VerifReach("end")
+}
+
+// Numbers into text destinations: whatever spelling is chosen, it must denote
+// the stored number exactly (parsing it back gives the same int64 / float64) and
+// the *string and *[]byte destinations must agree. Concrete values through the
+// real strconv.
+//verif:bounds 8 concrete REAL values (many digits, 0.1+0.2, 1e300, smallest subnormal, 2.5, -0.75, 1e21, 2^53+2) and 5 concrete INTEGER values (0, -1, 2^53+1, int64 extremes) scanned into *string and *[]byte
+func VH_C18_number_text() {
+	floats := [...]float64{3.141592653589793, 0.30000000000000004, 1e300, 5e-324, 2.5, -0.75, 1e21, 9007199254740994}
+	ints := [...]int64{0, -1, 9007199254740993, 9223372036854775807, -9223372036854775808}
+	var s string
+	var b []byte
+	k := sdb.VerifChoice(len(floats) + len(ints))
+	if k < len(floats) {
+		f := floats[k]
+		row := Row{f}
+		sdb.VerifNoErr(row.Scan(&s), "REAL -> string")
+		sdb.VerifNoErr(row.Scan(&b), "REAL -> []byte")
+		back, err := strconv.ParseFloat(s, 64)
+		sdb.VerifAssert(err == nil && back == f, "REAL -> string denotes the stored value exactly")
+		sdb.VerifAssert(string(b) == s, "REAL -> []byte agrees with REAL -> string")
+	} else {
+		n := ints[k-len(floats)]
+		row := Row{n}
+		sdb.VerifNoErr(row.Scan(&s), "INTEGER -> string")
+		sdb.VerifNoErr(row.Scan(&b), "INTEGER -> []byte")
+		back, err := strconv.ParseInt(s, 10, 64)
+		sdb.VerifAssert(err == nil && back == n, "INTEGER -> string denotes the stored value exactly")
+		sdb.VerifAssert(string(b) == s, "INTEGER -> []byte agrees with INTEGER -> string")
 	}
 	sdb.VerifReach("end")
 }
